@@ -28,7 +28,7 @@ RULE = ('a directed canary module (unique tokens wrapped in < > & quotes, entity
 ASSUME = ['the control run differs from the hostile run only in characters that mean nothing to HTML, the markups or Python string syntax',
           'href/src values written by explicit link markup are attribute values chosen by the author (URL scheme policy is not judged)',
           'reST raw/include directives are excluded by the statement and not generated']
-DECIDING = {'pages_strict_parsed': 300, 'pages_skeleton_compared': 200, 'canaries_seen_escaped': 300, 'docformats': 5, 'canary_positions': 30}
+DECIDING = {'directed_modules_parsed': 5, 'pages_strict_parsed': 300, 'pages_skeleton_compared': 200, 'canaries_seen_escaped': 300, 'docformats': 5, 'canary_positions': 30}
 CPU_S = 1200
 
 HOSTILE = '<zq{n} a="1" onload=\'x\'>&zq{n};&lt;&#x3c;]]>--><!--<script>zq{n}</script>'
@@ -90,13 +90,13 @@ FIELDS = {
                     ivar='@ivar iv: d @@CAN26@@', cvar='@cvar @@CAN27@@: bad name', rtype='@rtype: @@CNQ32@@', inline='C{{@@CAN36@@}} B{{@@CAN37@@}} U{{label<http://example.com/@@CAQ70@@>}} U{{http://example.com/@@CAQ71@@}} L{{@@CAW74@@ <canpkg.mod.f>}} L{{@@CAW75@@ <nosuchtarget>}} U{{@@CAW76@@ <http://example.com/>}}'),
     'restructuredtext': dict(param=':param a: pa @@CAN17@@', typ=':type a: ``@@CNQ18@@``', badparam=':param @@CAN19@@: unknown param',
                              rais=':raise @@CAN20@@: exc @@CAN35@@', ret=':return: r @@CAN21@@', see=':see: @@CAN22@@', unk=':unknownfield @@CAN23@@: x',
-                             ivar=':ivar iv: d @@CAN26@@', cvar=':cvar @@CAN27@@: bad name', rtype=':rtype: @@CNQ32@@', inline='``@@CAN36@@`` **@@CAN37@@** `label <http://example.com/@@CAQ70@@>`_ http://example.com/@@CAQ71@@\n\n.. image:: http://example.com/x.png\n   :alt: alt @@CAQ72@@\n\nTarget_ text.\n\n.. _Target: http://example.com/@@CAQ73@@'),
+                             ivar=':ivar iv: d @@CAN26@@', cvar=':cvar @@CAN27@@: bad name', rtype=':rtype: @@CNQ32@@', inline='``@@CAN36@@`` **@@CAN37@@** `label <http://example.com/@@CAQ70@@>`_ http://example.com/@@CAQ71@@\n\n.. image:: http://example.com/x.png\n   :alt: alt @@CAQ72@@\n\n.. code-block:: bash\n\n   echo @@CAW90@@\n\n.. code:: json\n\n   {{"k": "@@CAW92@@"}}\n\n.. code:: python\n\n   x = "@@CAW93@@"\n\nTarget_ text.\n\n.. _Target: http://example.com/@@CAQ73@@'),
     'google': dict(param='Args:\n        a: pa @@CAN17@@\n        @@CAN19@@ (@@CNQ18@@): unknown param', typ='', badparam='',
                    rais='Raises:\n        @@CAN20@@: exc @@CAN35@@', ret='Returns:\n        r @@CAN21@@', see='See Also:\n        @@CAN22@@', unk='Note:\n        @@CAN23@@',
-                   ivar='Attributes:\n        iv: d @@CAN26@@\n        @@CAN27@@: bad name', cvar='', rtype='', inline='``@@CAN36@@`` **@@CAN37@@** `label <http://example.com/@@CAQ70@@>`_ http://example.com/@@CAQ71@@\n\n.. image:: http://example.com/x.png\n   :alt: alt @@CAQ72@@'),
+                   ivar='Attributes:\n        iv: d @@CAN26@@\n        @@CAN27@@: bad name', cvar='', rtype='', inline='``@@CAN36@@`` **@@CAN37@@** `label <http://example.com/@@CAQ70@@>`_ http://example.com/@@CAQ71@@\n\n.. image:: http://example.com/x.png\n   :alt: alt @@CAQ72@@\n\n.. code-block:: bash\n\n   echo @@CAW90@@\n\n.. code:: json\n\n   {{"k": "@@CAW92@@"}}\n\n.. code:: python\n\n   x = "@@CAW93@@"'),
     'numpy': dict(param='Parameters\n    ----------\n    a : @@CNQ18@@\n        pa @@CAN17@@\n    @@CAN19@@\n        unknown param', typ='', badparam='',
                   rais='Raises\n    ------\n    @@CAN20@@\n        exc @@CAN35@@', ret='Returns\n    -------\n    @@CNQ32@@\n        r @@CAN21@@', see='See Also\n    --------\n    @@CAN22@@', unk='Notes\n    -----\n    @@CAN23@@',
-                  ivar='Attributes\n    ----------\n    iv\n        d @@CAN26@@\n    @@CAN27@@\n        bad name', cvar='', rtype='', inline='``@@CAN36@@`` **@@CAN37@@** `label <http://example.com/@@CAQ70@@>`_ http://example.com/@@CAQ71@@\n\n.. image:: http://example.com/x.png\n   :alt: alt @@CAQ72@@'),
+                  ivar='Attributes\n    ----------\n    iv\n        d @@CAN26@@\n    @@CAN27@@\n        bad name', cvar='', rtype='', inline='``@@CAN36@@`` **@@CAN37@@** `label <http://example.com/@@CAQ70@@>`_ http://example.com/@@CAQ71@@\n\n.. image:: http://example.com/x.png\n   :alt: alt @@CAQ72@@\n\n.. code-block:: bash\n\n   echo @@CAW90@@\n\n.. code:: json\n\n   {{"k": "@@CAW92@@"}}\n\n.. code:: python\n\n   x = "@@CAW93@@"'),
     'plaintext': dict(param='@param a: pa @@CAN17@@', typ='', badparam='', rais='@@CAN20@@ @@CAN35@@', ret='@@CAN21@@', see='@@CAN22@@', unk='@@CAN23@@', ivar='@@CAN26@@',
                       cvar='@@CAN27@@', rtype='@@CNQ32@@', inline='@@CAN36@@ @@CAN37@@'),
 }
@@ -113,6 +113,9 @@ V = '@@CAN4@@'
 NB1 = '\xa0@@CAW80@@'
 NB2 = ['\xa0', '@@CAW81@@', '@@CAN82@@\xa0']
 WF = '@@CAW83@@'
+def wfbytes(a=b'@@CAW91@@', b=b'\\xa0@@CAW94@@', c=(b'@@CAW95@@', 1), *, d: b'@@CAW96@@' = 1.5) -> b'@@CAW97@@':
+    """doc"""
+WFB = b'@@CAW98@@'
 @deco('\xa0@@CAW84@@')
 def nbdeco(a='\xa0@@CAW85@@', b: '\xa0@@CAW86@@' = None):
     """doc"""
@@ -344,6 +347,12 @@ def run_case(case: Dict[str, Any]) -> core.Res:
         # (the values are plain text, not templates: their doubled braces are un-doubled here)
         text = DIRECTED.format(**{k: v.replace('{{', '{').replace('}}', '}') for k, v in FIELDS[fmt].items()})
         res.c('canary_positions', len(set(re.findall(r'@@C(?:AN|NQ|AQ|AW)(\d+)@@', text))))
+        # the harness's own module must be valid Python in both variants, otherwise nothing of it is documented and the run proves nothing
+        import ast as _ast
+        for fn_ in (hostile, control):
+            probe = re.sub(r'@@C(?:AN|NQ|AQ|AW)(\d+)@@', lambda m: _lit(fn_(m.group(1))), text)
+            _ast.parse(probe)
+        res.c('directed_modules_parsed')
         res.setadd('docformats', fmt)
         sources = {'canpkg': (True, '"""Package @@CAN50@@."""\nfrom .mod import C as Moved\n__all__ = ["Moved"]\n'), 'canpkg.mod': (False, text)}
         _render_pair(res, f'directed/{fmt}/{case["theme"]}', sources, [f'--docformat={fmt}', f'--theme={case["theme"]}', '--process-types'])
